@@ -5,7 +5,8 @@ from ..common import *
 from .. import common, build, lean, check, script, wiregen
 
 MODULE = "Dbus.Props.C01"
-THEOREMS = ["decode_accepts_only_encodings", "decode_encode", "decodeFields_iff", "validate_prefix_stable", "validate_prefix_reflects"]
+THEOREMS = ["decode_accepts_only_encodings", "decode_encode", "decodeFields_iff", "validate_prefix_stable", "validate_prefix_reflects",
+            "demarshal_accepts_iff_spec", "accessors_eq_independent_decoding", "message_size_limit"]
 TABLES = ["typeTab_table", "limits_table"]
 
 
